@@ -52,7 +52,12 @@ class Witness:
             raw_tap_script = self.items[-3]
         else:
             raw_tap_script = self.items[-2]
-        return Script.parse(BytesIO(encode_varstr(raw_tap_script)))
+        tap_script = Script.parse(BytesIO(encode_varstr(raw_tap_script)))
+        if tap_script.raw is None and tap_script.raw_serialize() != raw_tap_script:
+            # a push that is not minimally encoded: the leaf commits to the
+            #  bytes as they are in the witness, keep them
+            tap_script.raw = raw_tap_script
+        return tap_script
 
     def tap_leaf(self):
         leaf_version = self.control_block().tapleaf_version
